@@ -179,10 +179,10 @@ def run(out):
     out.assumptions = ['not judged (statement silent): get_open_tag inside a closing tag; select_item_css next strictly inside a declaration '
                        'head; declarations not terminated by a semicolon for select_item_css',
                        'a value with a semicolon inside parentheses is known finding F16 (one small instance)']
-    hin = [('html-exhaustive', dict(constants={'MaxSeg': 3, 'MaxDepth': 3, 'SegIdx': set(range(1, 33)), 'XmlModes': {False}, **NOGEN})),
+    hin = [('html-exhaustive', dict(constants={'MaxSeg': 3, 'MaxDepth': 3, 'SegIdx': set(range(1, 35)), 'XmlModes': {False}, **NOGEN})),
            ('html-class-and-attributes', dict(constants={'MaxSeg': 4 if quick else 5, 'MaxDepth': 2, 'SegIdx': {2, 3, 5, 20, 21, 22, 29, 30, 31, 32} if quick else {3, 5, 20, 21, 22, 29, 30, 31, 32},
                                                          'XmlModes': {False}, **NOGEN})),
-           ('html-simulated', dict(constants={'MaxSeg': 14 if quick else 25, 'MaxDepth': 6, 'SegIdx': set(range(1, 33)), 'XmlModes': {False}, **NOGEN},
+           ('html-simulated', dict(constants={'MaxSeg': 14 if quick else 25, 'MaxDepth': 6, 'SegIdx': set(range(1, 35)), 'XmlModes': {False}, **NOGEN},
                                    simulate=3 if quick else 60, depth=15 if quick else 26, seed=out.seed))]
     base = dict(MaxDepth=3, Fillers={" ", "/* {;:} */", "NL", "C2", "C4", "CRLF"}, Loose=True, SemiInParens=False, NoSemi=False)
     cin4 = ('css-4', dict(constants=dict(base, MaxSeg=4, SelIdx={1, 2}, ValIdx={1, 2, 4}, NameIdx={1}, Fillers={" ", "C2", "CRLF"})))
